@@ -6,10 +6,12 @@ import (
 	"fmt"
 	"math/big"
 	"sort"
+	"strings"
 
 	"github.com/youchainhq/go-youchain/common"
 	"github.com/youchainhq/go-youchain/core/state"
 	"github.com/youchainhq/go-youchain/params"
+	"pgregory.net/rapid"
 	"verif/kit"
 	sc "verif/lib/stakechain"
 )
@@ -177,6 +179,36 @@ func checkC08(o *sc.Obs, st *state.StateDB) (string, string) {
 	return "", ""
 }
 
+// genCaseC08: the Conservation generator with chains of at least four periods, three quarters of
+// them with the directed delegation-unbind scenario (lib/stakechain/gen.go AddUnbindScenario) that
+// drives an online validator below MinStakes through teDelegationSub.
+func genCaseC08(t *rapid.T) Case {
+	c := Case{Cfg: processCfg()}
+	cfg := &sc.Configs[c.Cfg]
+	c.Excl = sc.Excl{AutoSettle: kit.IsKnown(classStale), NoRefund: kit.IsKnown(classRefund), NoEmpty: kit.IsKnown(classDust), NoNegRec: kit.IsKnown(classNegRec), ZeroStake: sc.ZeroStakePenaltyPanics(c.Cfg)}
+	c.Gen = sc.GenGenesis(t, cfg)
+	f := int(cfg.Freq)
+	maxBlocks := 64
+	if kit.Thorough() {
+		maxBlocks = 100
+	}
+	n := rapid.IntRange(4*f+1, maxBlocks).Draw(t, "nblocks")
+	c.Blocks = sc.GenBlocks(t, c.Gen, f, n, 2)
+	if rapid.IntRange(0, 3).Draw(t, "unbind") != 0 {
+		sc.AddUnbindScenario(t, c.Blocks, c.Gen, f)
+	}
+	return c
+}
+
+// negRecError recognises the two error texts by which the recorded finding negative-pending-record
+// shows up when the negative record arises before the period end: the staking trie update aborts
+// ("cannot encode negative *big.Int") and the block's staking root then names a trie that was never
+// completely written ("open trie error, name=stakingRoot ... missing trie node").
+func negRecError(err error) bool {
+	msg := err.Error()
+	return strings.Contains(msg, "cannot encode negative") || (strings.Contains(msg, "name=stakingRoot") && strings.Contains(msg, "missing trie node"))
+}
+
 func runC08(c Case) kit.Result {
 	net, err := sc.NewNet(c.Cfg, c.Gen)
 	if err != nil {
@@ -187,7 +219,7 @@ func runC08(c Case) kit.Result {
 	}
 	defer net.Close()
 	w := sc.NewWorld(net)
-	var statusChanges, stakeBoundary, delegationChanges, blocks, penalties int
+	var statusChanges, stakeBoundary, delegationChanges, blocks, penalties, forcedByUnbind int
 	balanceDrift = false
 	pre, err := sc.Observe(net.A, net.A.Head().Header())
 	if err != nil {
@@ -198,6 +230,9 @@ func runC08(c Case) kit.Result {
 		if err != nil {
 			if errors.Is(err, sc.ErrInfra) {
 				return kit.Discarded("infra: " + err.Error())
+			}
+			if negRecError(err) {
+				return kit.Fail(classNegRec, "block spec %d: %v", bi, err)
 			}
 			return kit.Fail("build", "block spec %d: %v", bi, err)
 		}
@@ -212,6 +247,9 @@ func runC08(c Case) kit.Result {
 		}
 		st, err := net.A.StateOf(step.Built.Block)
 		if err != nil {
+			if negRecError(err) {
+				return kit.Fail(classNegRec, "block %d: the committed state cannot be opened: %v", hdr.Number, err)
+			}
 			return kit.Fail("observe", "block %d: %v", hdr.Number, err)
 		}
 		if cls, msg := checkC08(post, st); cls != "" {
@@ -231,6 +269,10 @@ func runC08(c Case) kit.Result {
 			if len(p.Delegations) != len(v.Delegations) {
 				delegationChanges++
 			}
+			// an online validator whose delegations shrank and that is offline (not expelled) afterwards
+			if v.IsOnline() && !p.IsOnline() && !p.Expelled && p.SelfToken.Cmp(v.SelfToken) == 0 && p.Token.Cmp(v.Token) < 0 {
+				forcedByUnbind++
+			}
 			if p.Token.Cmp(v.Token) < 0 && p.Expelled && !v.Expelled {
 				penalties++
 			}
@@ -247,6 +289,9 @@ func runC08(c Case) kit.Result {
 	if statusChanges > 0 {
 		labels = append(labels, "status-change")
 	}
+	if forcedByUnbind > 0 {
+		labels = append(labels, "forced-offline-by-unbind")
+	}
 	if balanceDrift {
 		labels = append(labels, "observed:delegation-balance-drift")
 	}
@@ -255,11 +300,13 @@ func runC08(c Case) kit.Result {
 
 var _ = kit.Register(kit.Prop[Case]{
 	Name: "C08ChainLevel",
-	Rule: "EXTRA prop for property C08 part (ii), run on the chains of the Conservation generator: after every block the statistics record (per role and " +
+	Rule: "EXTRA prop for property C08 part (ii), run on chains of the Conservation generator with >= 4 staking periods, 3/4 of them with a directed " +
+		"scenario (house validator opens for delegation, is delegated MinStakes, withdraws its own stake down to 10-50 units, the delegator unbinds: " +
+		"teDelegationSub forces it offline): after every block the statistics record (per role and " +
 		"kind: online/offline stake, token, count; GetStakeByKind), the address index, Token/Stake = self + delegations, Stake = floor(Token/unit), sorted " +
 		"duplicate-free delegations and the delegator-side links are recomputed from the validator records read leaf by leaf " +
 		"from the committed validator trie. Non-trivial: >= 8 blocks and a status, stake or delegation change.",
-	Gen: genCase, Run: runC08,
+	Gen: genCaseC08, Run: runC08,
 	Quick: 40, Thorough: 300, Chunk: 10, MinNonTrivialPct: 40,
 	QuickBudgetS: 40, ThoroughBudgetS: 300,
 })
